@@ -738,6 +738,7 @@ def _legacy(run, repo, world, folder):
            "10-byte packet (0xAA, type, sn, 16, expect-reply, settling, "
            "send-twice delay, two frame bytes, 0) expected; %s" % detail,
            where(mod, fn))
+    _legacy_hasseb_extract(run, repo, world, folder, c[0])
     # UniPi
     mod = repo.mod(UNI)
     o, fn = _m(world, UNI + ".UnipiDALIDriver", "construct")
@@ -752,6 +753,92 @@ def _legacy(run, repo, world, folder):
             "cm1 << 8 | cm2"} <= vals and len(augs) == 2 and
            isinstance(tw, int) and astq.raises(fn, "ValueError"),
            "register pair layout / send-twice option / refusal changed",
+           where(mod, fn))
+
+
+def _legacy_hasseb_extract(run, repo, world, folder, c):
+    """Which reports the legacy hasseb driver reads as an answer: the paths
+    of extract() that return BackwardFrame(..) / BackwardFrameError(..), as
+    formulas over the report's bytes (module constants folded), compared
+    with the report layout."""
+    from .. import paths, pred
+    from ..normal import normalise
+    sp = _spec("hid.json")["hasseb_legacy_report"]
+    mod = repo.mod(LHAS)
+    if "extract" not in c.methods:
+        raise AnalysisError("legacy hasseb extract vanished")
+    fn = normalise(c.methods["extract"][1], world, LHAS, c, aliases="params")
+    Q = c.qname + ".extract"
+    data = fn.args.args[1].arg
+
+    def lin(e):
+        if isinstance(e, ast.Constant) and type(e.value) is int:
+            return pred.Lin.const(e.value)
+        if isinstance(e, ast.Subscript) and unparse(e.value) == data and \
+                isinstance(e.slice, ast.Constant) and type(
+                    e.slice.value) is int:
+            return pred.Lin.sym("d%d" % e.slice.value)
+        if isinstance(e, ast.Name):
+            v = folder.eval(e, {}, LHAS)
+            if type(v) is int:
+                return pred.Lin.const(v)
+        return None
+    P = pred.Parser(lin)
+
+    def tree(t):
+        try:
+            return P.tree(t)
+        except pred.Unrecognised:
+            return ("atom", ("p", unparse(t, 200), True))
+    ps = paths.summaries(fn)
+
+    def region(sel_):
+        ds = []
+        for p_ in ps:
+            if sel_(p_):
+                trees = []
+                for (tst, b) in p_.conds:
+                    tr = tree(tst)
+                    trees.append(tr if b else ("not", tr))
+                d_ = pred.dnf(("and", trees))
+                ds.append(frozenset(frozenset(
+                    a for a in cj if a[0] == "le") for cj in d_))
+        return pred.union(*ds) if ds else frozenset()
+
+    def ctor(p_):
+        if p_.kind == "return" and isinstance(p_.expr, ast.Call):
+            return unparse(p_.expr.func).split(".")[-1]
+        return None
+
+    def f(src):
+        return P.dnf(ast.parse(src, mode="eval").body)
+    D = data
+    want_ok = f("%s[%d] == %d and %s[%d] == %d and %s[%d] == %d" % (
+        D, sp["type_offset"], sp["dali_frame_type"],
+        D, sp["status_offset"], sp["status_ok"],
+        D, sp["length_offset"], sp["answer_length"]))
+    want_err = f("%s[%d] == %d and %s[%d] == %d" % (
+        D, sp["type_offset"], sp["dali_frame_type"],
+        D, sp["status_offset"], sp["status_invalid"]))
+    got_ok = region(lambda p_: ctor(p_) == "BackwardFrame")
+    got_err = region(lambda p_: ctor(p_) == "BackwardFrameError")
+    answers = [unparse(p_.expr.args[0]) for p_ in ps
+               if ctor(p_) == "BackwardFrame" and p_.expr.args]
+    e1, _ = pred.equivalent(got_ok, want_ok)
+    e2, _ = pred.equivalent(got_err, want_err)
+    oka = bool(answers) and all(a == "%s[%d]" % (D, sp["answer_offset"])
+                                for a in answers)
+    run.ob("R-WIRE-LEGACY", Q + "#answer-reports", e1 and oka,
+           "a report is read as the answer BackwardFrame(%s) when `%s`; the "
+           "report layout makes it an answer exactly when `%s` (type, "
+           "status OK, one answer byte), the byte being %s[%d]" % (
+               sorted(set(answers)), pred.show(got_ok), pred.show(want_ok),
+               D, sp["answer_offset"]), where(mod, fn),
+           sample={"rule": "R-WIRE-LEGACY", "answer_when": pred.show(got_ok),
+                   "answer_byte": sorted(set(answers))})
+    run.ob("R-WIRE-LEGACY", Q + "#garbled-reports", e2,
+           "a report is read as a framing error when `%s`; the layout says "
+           "`%s`" % (pred.show(got_err), pred.show(want_err)),
            where(mod, fn))
 
 
